@@ -63,6 +63,8 @@ pub mod ffi {
                 // `out` must be a valid RotoOption<T>.
                 unsafe { out.cast::<u8>().write(1) };
 
+                #[cfg(feature = "verif-hooks")]
+                crate::verif::list_lock(std::sync::Arc::as_ptr(&this.0) as usize, "list_get#1");
                 let raw = this.0.lock().unwrap();
                 let size = raw.vtable.size();
                 let alignment = raw.vtable.align();
@@ -73,6 +75,9 @@ pub mod ffi {
                 // by writing it to the next multiple of the alignment. The offset
                 // is therefore the correct byte offset.
                 let dst = unsafe { out.byte_add(offset) };
+
+                #[cfg(feature = "verif-hooks")]
+                crate::verif::ptr_use(src.as_ptr() as usize, "ffi::list_get");
 
                 // If there is no clone function, we can optimize this by doing a memcpy.
                 match raw.vtable.clone_fn {
@@ -169,6 +174,8 @@ pub mod boundary {
                 return true;
             }
 
+            #[cfg(feature = "verif-hooks")]
+            crate::verif::list_lock(std::sync::Arc::as_ptr(&self.inner.0) as usize, "eq#1");
             let this = self.inner.0.lock().unwrap();
 
             // SAFETY: The rawlist represents a slice of T::Transformed so
@@ -181,6 +188,8 @@ pub mod boundary {
                 )
             };
 
+            #[cfg(feature = "verif-hooks")]
+            crate::verif::list_lock(std::sync::Arc::as_ptr(&self.inner.0) as usize, "eq#2");
             let other = self.inner.0.lock().unwrap();
 
             // SAFETY: The rawlist represents a slice of T::Transformed so
@@ -242,6 +251,9 @@ pub mod boundary {
         /// Get the element at index `idx`
         pub fn get(&self, idx: usize) -> Option<T> {
             let ptr = self.inner.get(idx)?;
+
+            #[cfg(feature = "verif-hooks")]
+            crate::verif::ptr_use(ptr.as_ptr() as usize, "List::get");
 
             // SAFETY: The list has values of T::Transformed, which means that
             // this cast is valid.
@@ -315,6 +327,8 @@ pub mod boundary {
     impl<T: Clone + Value> List<T> {
         /// Convert this [`List`] into a regular [`Vec`].
         pub fn to_vec(&self) -> Vec<T> {
+            #[cfg(feature = "verif-hooks")]
+            crate::verif::list_lock(std::sync::Arc::as_ptr(&self.inner.0) as usize, "to_vec#1");
             let guard = self.inner.0.lock().unwrap();
 
             // SAFETY: The RawList always contains a valid slice. Even if the
@@ -453,7 +467,11 @@ impl PartialEq for ErasedList {
             return true;
         }
 
+        #[cfg(feature = "verif-hooks")]
+        crate::verif::list_lock(std::sync::Arc::as_ptr(&self.0) as usize, "eq#3");
         let this = self.0.lock().unwrap();
+        #[cfg(feature = "verif-hooks")]
+        crate::verif::list_lock(std::sync::Arc::as_ptr(&other.0) as usize, "eq#4");
         let other = other.0.lock().unwrap();
 
         if this.len != other.len {
@@ -495,6 +513,8 @@ impl ErasedList {
     pub unsafe fn push(&self, elem_ptr: NonNull<T>) {
         // SAFETY: We require that `elem_ptr` must be a pointer to the element
         // type `T` that the list contains.
+        #[cfg(feature = "verif-hooks")]
+        crate::verif::list_lock(std::sync::Arc::as_ptr(&self.0) as usize, "push#1");
         unsafe { self.0.lock().unwrap().push(elem_ptr) };
     }
 
@@ -505,9 +525,13 @@ impl ErasedList {
     /// Both `self` and `other` must have the same element type.
     ///
     pub unsafe fn concat(&self, other: &Self) -> Self {
+        #[cfg(feature = "verif-hooks")]
+        crate::verif::list_lock(std::sync::Arc::as_ptr(&self.0) as usize, "concat#1");
         let a = self.0.lock().unwrap();
 
         let new = Self::new(a.vtable.clone());
+        #[cfg(feature = "verif-hooks")]
+        crate::verif::list_lock(std::sync::Arc::as_ptr(&new.0) as usize, "concat#2");
         let mut raw = new.0.lock().unwrap();
 
         // SAFETY: self and other have the same element type
@@ -517,6 +541,8 @@ impl ErasedList {
         // We need to ensure we don't lock the mutex twice
         drop(a);
 
+        #[cfg(feature = "verif-hooks")]
+        crate::verif::list_lock(std::sync::Arc::as_ptr(&other.0) as usize, "concat#3");
         let b = other.0.lock().unwrap();
 
         // SAFETY: raw and b have the same element type
@@ -530,6 +556,8 @@ impl ErasedList {
     }
 
     pub fn get(&self, idx: usize) -> Option<NonNull<T>> {
+        #[cfg(feature = "verif-hooks")]
+        crate::verif::list_lock(std::sync::Arc::as_ptr(&self.0) as usize, "get#1");
         self.0.lock().unwrap().get(idx)
     }
 
@@ -543,6 +571,8 @@ impl ErasedList {
     pub unsafe fn contains(&self, item_ptr: NonNull<T>) -> bool {
         // SAFETY: We require that the item_ptr points to the same type as in
         // the list.
+        #[cfg(feature = "verif-hooks")]
+        crate::verif::list_lock(std::sync::Arc::as_ptr(&self.0) as usize, "contains#1");
         unsafe { self.0.lock().unwrap().contains(item_ptr) }
     }
 
@@ -554,6 +584,8 @@ impl ErasedList {
     ///  - There must be no references to that value.
     ///  - The value cannot be used after this function.
     pub unsafe fn contains_owned(&self, item_ptr: NonNull<T>) -> bool {
+        #[cfg(feature = "verif-hooks")]
+        crate::verif::list_lock(std::sync::Arc::as_ptr(&self.0) as usize, "contains_owned#1");
         let raw = self.0.lock().unwrap();
 
         // SAFETY: We require that the item_ptr points to the same type as in
@@ -580,6 +612,8 @@ impl ErasedList {
     pub unsafe fn index(&self, item_ptr: NonNull<T>) -> Option<usize> {
         // SAFETY: We require that the item_ptr points to the same type as in
         // the list.
+        #[cfg(feature = "verif-hooks")]
+        crate::verif::list_lock(std::sync::Arc::as_ptr(&self.0) as usize, "index#1");
         unsafe { self.0.lock().unwrap().index(item_ptr) }
     }
 
@@ -591,6 +625,8 @@ impl ErasedList {
     ///  - There must be no references to that value.
     ///  - The value cannot be used after this function.
     pub unsafe fn index_owned(&self, item_ptr: NonNull<T>) -> Option<usize> {
+        #[cfg(feature = "verif-hooks")]
+        crate::verif::list_lock(std::sync::Arc::as_ptr(&self.0) as usize, "index_owned#1");
         let raw = self.0.lock().unwrap();
 
         // SAFETY: We require that the item_ptr points to the same type as in
@@ -608,20 +644,41 @@ impl ErasedList {
     }
 
     pub fn swap(&self, i: usize, j: usize) {
+        #[cfg(feature = "verif-hooks")]
+        crate::verif::list_lock(std::sync::Arc::as_ptr(&self.0) as usize, "swap#1");
         self.0.lock().unwrap().swap(i, j)
     }
 
     pub fn len(&self) -> usize {
+        #[cfg(feature = "verif-hooks")]
+        crate::verif::list_lock(std::sync::Arc::as_ptr(&self.0) as usize, "len#1");
         self.0.lock().unwrap().len()
     }
 
     pub fn capacity(&self) -> usize {
+        #[cfg(feature = "verif-hooks")]
+        crate::verif::list_lock(std::sync::Arc::as_ptr(&self.0) as usize, "capacity#1");
         self.0.lock().unwrap().capacity()
     }
 
     pub fn is_empty(&self) -> bool {
+        #[cfg(feature = "verif-hooks")]
+        crate::verif::list_lock(std::sync::Arc::as_ptr(&self.0) as usize, "is_empty#1");
         self.0.lock().unwrap().is_empty()
     }
+}
+
+/// Is the list mutex at this address free right now? (harness scheduler probe)
+///
+/// # Safety
+///
+/// `mutex` must be the address reported by a `ListLock` event of a list
+/// that is still alive.
+#[cfg(feature = "verif-hooks")]
+pub(crate) unsafe fn verif_mutex_is_free(mutex: usize) -> bool {
+    // SAFETY: guaranteed by the caller
+    let m = unsafe { &*(mutex as *const Mutex<RawList>) };
+    !matches!(m.try_lock(), Err(std::sync::TryLockError::WouldBlock))
 }
 
 struct RawList {
@@ -935,6 +992,12 @@ impl RawList {
                         new_capacity,
                     )
                 };
+                #[cfg(feature = "verif-hooks")]
+                crate::verif::emit(crate::verif::Event::BufMoved {
+                    old: ptr.as_ptr() as usize,
+                    new: new_ptr.as_ptr() as usize,
+                    bytes: self.vtable.size() * new_capacity,
+                });
                 self.ptr = new_ptr;
             } else {
                 // SAFETY: At this point, we know that the size of the layout
@@ -944,6 +1007,11 @@ impl RawList {
                 let new_ptr = unsafe {
                     alloc_array(self.vtable.layout(), new_capacity)
                 };
+                #[cfg(feature = "verif-hooks")]
+                crate::verif::emit(crate::verif::Event::BufAlloc {
+                    buf: new_ptr.as_ptr() as usize,
+                    bytes: self.vtable.size() * new_capacity,
+                });
                 self.ptr = new_ptr;
             }
             self.capacity = new_capacity;
@@ -960,6 +1028,13 @@ impl RawList {
         // size of the allocation, we know that we'll stay within the
         // allocation.
         let ptr = unsafe { self.ptr.byte_add(offset) };
+
+        #[cfg(feature = "verif-hooks")]
+        crate::verif::emit(crate::verif::Event::PtrMade {
+            ptr: ptr.as_ptr() as usize,
+            buf: self.ptr.as_ptr() as usize,
+            elem_size: self.vtable.size(),
+        });
 
         Some(ptr)
     }
@@ -1058,6 +1133,10 @@ impl RawList {
         }
 
         if let Some(ptr) = self.current_memory() {
+            #[cfg(feature = "verif-hooks")]
+            crate::verif::emit(crate::verif::Event::BufFreed {
+                buf: ptr.as_ptr() as usize,
+            });
             // SAFETY: We allocated the ptr with alloc_array or realloc_array.
             unsafe {
                 dealloc_array(ptr, self.vtable.layout(), self.capacity)
